@@ -107,6 +107,17 @@ def huge_specs():
     return out
 
 
+def cascade_specs():
+    out = []
+    for n in list(range(120, 131)) + list(range(248, 259)):
+        out.append({"fn": None, "freevars": [], "first_line": 1, "stacksize": 1, "min_version": 7,
+                    "blocks": [[["jabs", 2, 1, 0], ["FILL", "noarg", 0, n, 1]], [["jabs", 1, 2, 0], ["FILL", "noarg", 0, 10, 2]], [["noarg", None, 3, 2]]]})
+        out.append({"fn": None, "freevars": [], "first_line": 1, "stacksize": 1, "min_version": 7,
+                    "blocks": [[["jrel", 2, 1, 0], ["jabs", 1, 1, 1], ["FILL", "noarg", 0, n, 1]], [["jabs", 2, 2, 0], ["FILL", "noarg", 0, 5, 2]],
+                               [["jabs", 0, 3, 0], ["noarg", None, 3, 2]]]})
+    return out
+
+
 FIXED_SPECS = [
     # minimal shapes named in DESIGN section 7.4
     {"fn": None, "freevars": [], "blocks": [[["noarg", None, None, 2]]], "first_line": 1, "stacksize": 1, "min_version": 7},
